@@ -261,6 +261,27 @@ def strip_pos(c):
     return [c[0], c[1], [strip_pos(x) for x in c[2]]]
 
 
+def value_only(c):
+    """type and value: positions and the recorded source text of f-string fields dropped"""
+    pay = c[1][:2] if c[0] == "FComp" else c[1]
+    return [c[0], pay, [value_only(x) for x in c[2]]]
+
+
+def semis_ok(t):
+    """Extend.semis_ok: every ';' has a newline somewhere after it"""
+    i = t.rfind(";")
+    return i < 0 or "\n" in t[i:]
+
+
+def stop(d):
+    """Extend.stop: ends an identifier and is not a double quote"""
+    return (d in WS or d in NON_IDENT) and d != '"'
+
+
+def boundary_safe(t1, t2):
+    return semis_ok(t1) and (t2 == "" or stop(t2[0]))
+
+
 def outcome_class(r):
     return r[0]
 
@@ -291,7 +312,7 @@ WS = " \t\n\r\f\v"
 NON_IDENT = set("()[]{};\"'`~")
 SYMBOLS = ["a", "b", "x", "foo", "bar", "baz", "+", "-", "*", "/", "<=", "->", "setv", "defn", "fn", "if", "print", "None",
            "True", "_", "__init__", "a-b", "a_b", "*args", "&rest", "foo?", "set!", "x1", "é", "λ", "日本", "a#b", "a:b",
-           "j", "J", "e", "1e", "0x", "1+", "+.", "-.", "foo.bar", "a.b.c", ".attr", ".a.b", "..up.x", "...", ".", "..",
+           "j", "J", "e", "1e", "0x", "1+", "foo.bar", "a.b.c", ".attr", ".a.b", "..up.x", "...", ".", "..",
            "os.path", "self.x", "a.b1", "NaN.x", "x.1a", "$", "%", "^", "&", "|", "\\", "@", "@x", "!", "=", "?", "a\xa0b",
            "\U0001F600", "ｘ", "a\x00b", "\ufeffx", "<", ">", "a,b", "a.b-c", "f", "r", "b", "t", "rb", "fr"]
 NUMBERS = ["0", "1", "42", "-1", "+7", "007", "1_000", "1,000", "1,,0", "0x1F", "0o17", "0b101", "1.5", "1.", ".5", "-.5", "1e3",
@@ -300,7 +321,7 @@ KEYWORDS = ["a", "foo", "foo-bar", "", "+", "x1", "é", "a:b", "#", ":", "1"]
 STR_BODIES = ["", "a", "hello world", "a\\nb", "\\\\", "\\\"", "say \\\"hi\\\"", "\\x41", "\\101", "\\u00e9", "\\U0001F600",
               "\\N{DIGIT ONE}", "tab\\there", "line1\nline2", "cr\rx", "crlf\r\ny", "é", "日本", "'", ";not a comment", "(", ")",
               "[ ] { }", "#_ x", "{", "}", "{x}", "\\a\\b\\f\\v\\0", "\\\nx", "~@", ":", "#[[", "]]", "\\'", "\U0001F600"]
-RAW_BODIES = ["", "a", "\\d+\\.\\d*", "\\", "\\q", "a\\\"b", "C:\\\\dir", "{x}", "é", "x\ny", "\\N{x}", "\\x"]
+RAW_BODIES = ["", "a", "\\d+\\.\\d*", "\\\\", "\\q", "a\\\"b", "C:\\\\dir", "{x}", "é", "x\ny", "\\N{x}", "\\x"]
 BYTE_BODIES = ["", "a", "abc", "\\x00\\xff", "\\n", "\\\\", "\\\"", "\\101", "x y", "a\nb", "{}", "\\'"]
 DELIMS = ["", "x", "==", "foo", "-", "a b", "f", "f-x", "t", "t-x", "F", "#", "(", "é", "{", "}", "=f"]
 BR_CONTENTS = ["", "a", "hello", "]", "]]x", "a]b", "]x", "x]", "[", "[[", "\"", "a\nb", "\nab", "\n\nab", "\r\nab", "\rab", "a\rb",
@@ -313,10 +334,11 @@ FSPEC = ["", ">", ">10", "^8", ".2f", "x", " ", "0>5", "{{", "}}", "\\n", "é"]
 class Gen:
     """grammar-directed generator of programs (as trees)"""
 
-    def __init__(self, rng, fstrings=True, depth=4):
+    def __init__(self, rng, fstrings=True, depth=4, debug=True):
         self.rng = rng
         self.fstrings = fstrings
         self.maxdepth = depth
+        self.debug = debug    # f-string fields with "=" record their source text verbatim
 
     def ident(self):
         r = self.rng
@@ -342,7 +364,7 @@ class Gen:
         if x < 0.8:
             p = r.choice(["", "", "", "r", "b", "rb", "br"])
             if "b" in p:
-                body = r.choice(BYTE_BODIES if "r" not in p else ["", "a", "\\q", "\\", "x y"])
+                body = r.choice(BYTE_BODIES if "r" not in p else ["", "a", "\\q", "\\\\", "x y"])
             elif "r" in p:
                 body = r.choice(RAW_BODIES)
             else:
@@ -400,7 +422,7 @@ class Gen:
             else:
                 ws = lambda: "".join(r.choice(" \n\t") for _ in range(r.choice([0, 0, 1, 2])))
                 node = self.form(depth + 1)
-                dbg = r.random() < 0.2
+                dbg = self.debug and r.random() < 0.2
                 conv = r.choice([None, None, "r", "s", "a"])
                 sp = self.fparts(depth + 1, spec=True) if (r.random() < 0.35 and depth < self.maxdepth) else None
                 parts.append(("field", ws(), node, ws(), dbg, ws(), conv, ws(), sp))
@@ -498,6 +520,15 @@ class Render:
         self.no_at = False
 
     def sep(self, items):
+        if self.mode == "flat":
+            # validation printing: discarded forms become ordinary items
+            for it in items:
+                if it[0] == "discard":
+                    self.between()
+                    self.sep(it[1])
+                    self.form(it[2])
+                    self.between()
+            return
         if self.mode != "rand":
             return
         for it in items:
@@ -521,7 +552,7 @@ class Render:
                 self.form(it[2])
 
     def between(self):
-        if self.mode != "rand" and self.out and self.out[-1] not in "([{":
+        if self.mode != "rand" and self.out and self.out[-1] not in "([{ ":
             self.put(" ")
             self.open_ended = False
             self.no_at = False
